@@ -29,6 +29,9 @@ class VirtualToReal:
       raise
     self._gfa._unregister_line(previous)
     self._gfa._register_line(self)
+    # the substituted line does not belong to the Gfa any more
+    previous._gfa = None
+    previous._refs = {}
     return None
 
   def _import_references(self, previous):
